@@ -91,6 +91,36 @@ CLAIMED = {
         "technique": "Coq proof (rounding-model lemmas, algebraic identities over Q, list refinement) + bit-exact differential correspondence",
         "design": "DESIGN.md section 7 C20",
     },
+    "C03": {
+        "text": "Coq theorems about the checked-read models of every decoder (a read is a pattern match on the byte list, so 'reads outside the supplied bytes' and 'does not return' are values OOB / Fuel of the model): for EVERY byte string the container parser on both routes, the trajectory decoder and every player query at every time, the yaw decoder, the RTH evaluator and point table never produce OOB and never run out of the stated fuel; blocks shorter than their header are refused; the light interpreter's loop stack never exceeds its capacity and its program counter stays valid over any history of seeks; the one way a call does not return (a light program whose cycle consumes no time) is stated as a machine-checked refutation (finding D8). Tied to the compiled code by running the ASan/UBSan-instrumented library (inputs against a guard page, per-call alarm) on the same cases as the models: fixtures and generated files, prefixes, boundary edits, length edits, splices, random strings, both routes, four kinds, raw blocks, full query battery; verdict and results must agree.",
+        "note": "PARTIAL where the truth lives in the runtime: undefined behaviour that is not a modelled read/shift/conversion (signed overflow in compiled arithmetic, uninitialised reads, aliasing), allocator behaviour and hangs outside the interpreter loop are only observed by the sanitizer runs, which validate and are not proofs. Known finding D8 (seek does not return on zero-time cycles). Trusted: Coq kernel; hand-written models; gcc 12 sanitizers; extraction; harness. No axioms.",
+        "technique": "Coq proof (totality / no-OOB theorems over checked-read models, loop-stack and pc invariants by induction over seeks) + sanitizer-instrumented differential correspondence",
+        "design": "DESIGN.md section 7 C03",
+    },
+    "C06": {
+        "text": "Coq theorems about the loader model over both file abstractions (descriptor: reads what is there; memory: view with bounds check) composed with the container model: for every byte string and each of the four kinds the two routes both fail or both succeed with the same block bytes; when both fail the codes differ only for a file that ends inside a block; a successful load is exactly the body of the first record of the kind's type and at least a header long; loaders are total. Since every query is a function of the block bytes alone, equal bytes give equal observations. Tied to the code by differential runs: each route against its model, and route against route inside the harness (block bytes, full query battery before and after clear).",
+        "note": "Trusted: Coq kernel; hand-written loader/container model following the repaired code (D1, D2, D11, D17 fixed); read(2)/lseek(2) contract on regular files (memfd in the harness); 'every later observation identical' beyond the block bytes is by the harness comparison C-vs-C, the model-level argument being that queries take only the bytes; extraction. No axioms.",
+        "technique": "Coq proof (case analysis over the record grammar for both routes) + differential correspondence of each route against the model and of the routes against each other",
+        "design": "DESIGN.md section 7 C06",
+    },
+    "C13": {
+        "text": "Coq theorems: the interval-Horner range enclosure and the leftmost-root search used as the oracle are sound over the reals (NoRoot: the altitude polynomial differs from the target everywhere in the interval; Maybe a b: no crossing before a); a sign change certifies a real root; the scan over segments reports the first segment that can contain a crossing, with no crossing in any earlier segment and none before the box in that segment; infinity exactly for invalid parameters (negative/non-finite ascent, non-positive/non-finite speed, non-positive acceleration), characterised by stats_valid_spec; travel time modelled bit-exactly (C20). Tied to the code by differential runs: the C answer E must lie in the certified box (widened by the stated cubic tolerance), infinity cases exact, statistics interface = proposal.",
+        "note": "PARTIAL: the closed-form cubic solver goes through libm cbrtf/cpowf and has no exact model; for cubic altitude segments 'the code returns the first crossing' is checked per instance against the certified box, not proved for all inputs. Known finding D16 (crossing within ~1e-3 of a cubic segment end is missed). Axioms: standard-library reals (sig_forall_dec, sig_not_dec, functional_extensionality_dep, classic). Trusted: Coq kernel; models; tolerances (1% of a cubic segment, 1e-5 relative otherwise); extraction; harness.",
+        "technique": "Coq proof (soundness of interval/bisection certificates over R, induction over segments) + per-instance certified differential correspondence",
+        "design": "DESIGN.md section 7 C13",
+    },
+    "C14": {
+        "text": "Coq theorems about the model of the landing pass of stats.c: the run tracked across the pass is the longest suffix of vertically descending segments and the fallback is the end of the last other segment; in exact arithmetic the three cases of the property hold (empty run -> total duration; run descends no more than preferred -> start of run; otherwise an instant inside the first segment of the run not wholly above end+preferred); degenerate descents (non-positive, <= FLT_MIN, non-finite) give the total duration; with the code's binary32 subtraction the third case is refuted by a machine-checked witness (finding D9). Tied to the code by differential runs of the binary32-faithful model (answer kind and milliseconds exact, interior instants inside the certified root box) and of the exact specification (differences = D9 only).",
+        "note": "PARTIAL: cubic descents per instance (certificate), as C13. Known finding D9. Trusted: Coq kernel; models; root tolerance 1% of a cubic segment; extraction; harness. No axioms for the integer/rational theorems.",
+        "technique": "Coq proof (run-tracking invariant by induction over segments, case analysis of the walk) + differential correspondence with certified root boxes",
+        "design": "DESIGN.md section 7 C14",
+    },
+    "C15": {
+        "text": "Coq theorems: the certified enclosures poly_max / poly_min (interval Horner + bisection over Q) are sound over the reals - the outer bound dominates the polynomial on the whole interval, the inner bound is a value attained at a rational point - and their fold over all segments (axis_bounds) encloses every position of the axis and both inner bounds are positions the trajectory passes through. The box reported by the library must lie between inner and outer bounds (widened by the stated float tolerance): hence it contains the trajectory and every face is touched. Both loading routes (C06). Tied to the code by differential runs on constant/linear/cubic axes in all combinations and the fixtures.",
+        "note": "PARTIAL: that sb_poly_get_extrema finds the extrema is checked per instance against the certified enclosure, not proved for all cubics (quadratic solver in binary32). Known finding D13 (degree-7 axes ignored; recorded by the property text). Axioms: standard-library reals. Trusted: Coq kernel; models; float tolerance; extraction; harness.",
+        "technique": "Coq proof (soundness of interval enclosures over R, induction over segments) + per-instance certified differential correspondence",
+        "design": "DESIGN.md section 7 C15",
+    },
 }
 NOT_YET = "check not built yet in this session (planned: Coq model + theorems + correspondence, see DESIGN.md section 7)"
 
